@@ -46,6 +46,10 @@ func c04Record(c *fw.Case, bufSize int) []byte {
 	// (512 KiB, 1 MiB): one in eight of its records is that large
 	if c.Idx%100 == 3 && r.Intn(8) == 0 {
 		n := gen.Pick(r, 512*1024, 1024*1024) + r.Intn(3) - 1 + r.Intn(2)*r.Intn(200000)
+		if r.Intn(2) == 0 {
+			// lengths just above a multiple of the 32 KiB steps in which stream decompressors hand out their data
+			n = (17+r.Intn(20))*32768 + 1 + r.Intn(511)
+		}
 		c.Obs("records_of_half_a_mebibyte_or_more", 1)
 		b := gen.Bytes(r, 4096)
 		p := make([]byte, 0, n)
